@@ -387,6 +387,7 @@ class Ctx(object):
     self.hooks = {}  # optional per-pid callables run inside the body (used by property modules)
     self.serial = 0
     self.plug_classes = []
+    self.raw = {}
 
   def next_inv(self, pid):
     with self.lock:
@@ -550,6 +551,8 @@ def build_node(node, ctx, htf, plug_map=None):
   t = node['t']
   if t == 'phase':
     return build_phase(node, ctx, htf, plug_map)
+  if t == 'raw':  # a phase object prepared by the property module (ctx.raw[id])
+    return ctx.raw[node['id']]
   if t == 'cp':
     act = getattr(htf.PhaseResult, node['act'])
     name = 'c%d' % node['id']
